@@ -25,16 +25,20 @@ import (
 // ---------------------------------------------------------------------------
 
 type TailPlan struct {
-	Offset    int64           `json:"offset"`    // initial offset (multiple of 64)
-	Threshold int64           `json:"threshold"` // reclaimThreshold in bits (knob); 0 = leave the default
-	Producers []TailProducer  `json:"producers"`
-	NetSeed   uint64          `json:"net_seed"`
-	DupDen    int             `json:"dup_den,omitempty"`       // duplicate a message with probability 1/DupDen
-	DropDen   int             `json:"drop_den,omitempty"`      // drop with probability 1/DropDen
-	Window    int             `json:"window,omitempty"`        // reorder: delay each message by H%Window ticks
-	HoldDen   int             `json:"hold_den,omitempty"`      // hold a message until the window has moved past it (delay_past_compaction)
-	CompactEv int             `json:"compact_every,omitempty"` // explicit Compact every N-th delivery (0: never)
-	ProbeSeed uint64          `json:"probe_seed"`
+	Offset    int64          `json:"offset"`    // initial offset (multiple of 64)
+	Threshold int64          `json:"threshold"` // reclaimThreshold in bits (knob); 0 = leave the default
+	Producers []TailProducer `json:"producers"`
+	NetSeed   uint64         `json:"net_seed"`
+	DupDen    int            `json:"dup_den,omitempty"`       // duplicate a message with probability 1/DupDen
+	DropDen   int            `json:"drop_den,omitempty"`      // drop with probability 1/DropDen
+	Window    int            `json:"window,omitempty"`        // reorder: delay each message by H%Window ticks
+	HoldDen   int            `json:"hold_den,omitempty"`      // hold a message until the window has moved past it (delay_past_compaction)
+	CompactEv int            `json:"compact_every,omitempty"` // explicit Compact every N-th delivery (0: never)
+	ProbeSeed uint64         `json:"probe_seed"`
+	// Instances: number of independent TailBitmaps alive in the run (several
+	// windows in one process); producer i feeds instance i % Instances. Each has
+	// its own reference model: one instance must never affect another.
+	Instances int             `json:"instances,omitempty"`
 	Sched     engine.Schedule `json:"sched"`
 }
 
@@ -97,6 +101,9 @@ func (Tail) Generate(seed uint64, tier string) engine.Plan {
 	if r.Chance(1, 5) {
 		per = int(r.Range(1, 700))
 	}
+	if deep(tier) && r.Chance(1, 10) {
+		per = int(r.Range(700, 6000)) // thorough tier: long histories
+	}
 	if big {
 		p.Threshold = 0
 		np = r.PickInt(1, 2)
@@ -136,11 +143,16 @@ func (Tail) Generate(seed uint64, tier string) engine.Plan {
 	if r.Chance(1, 2) {
 		p.CompactEv = r.PickInt(1, 3, 17, 100)
 	}
+	p.Instances = r.PickInt(1, 1, 1, 2, 2, 3)
+	if big {
+		p.Instances = 1
+	}
 	p.Sched = genSchedule(r, np+1)
 	return p
 }
 
 type tailMsg struct {
+	inst   int // target instance
 	id     int64
 	at     int64 // deliverable at tick
 	seq    int64
@@ -200,16 +212,43 @@ func (Tail) Execute(pl engine.Plan, c *engine.RunCtx) *engine.Failure {
 		f()
 		return fail == nil
 	}
-	if !guard(0, func() string { return "NewTailBitmap" }, func() { tb = bitmap.NewTailBitmap(p.Offset) }) {
-		return fail
+	nInst := p.Instances
+	if nInst < 1 {
+		nInst = 1
 	}
-	// ---- reference model
+	type tailInst struct {
+		tb                                          *bitmap.TailBitmap
+		S                                           map[int64]struct{}
+		firstHole, maxS, prevOffset, reclaimedModel int64
+	}
+	insts := make([]*tailInst, nInst)
+	for k := range insts {
+		var t0 *bitmap.TailBitmap
+		if !guard(0, func() string { return "NewTailBitmap" }, func() { t0 = bitmap.NewTailBitmap(p.Offset) }) {
+			return fail
+		}
+		insts[k] = &tailInst{tb: t0, S: map[int64]struct{}{}, firstHole: p.Offset, maxS: -1, prevOffset: t0.Offset, reclaimedModel: p.Offset}
+	}
+	// ---- reference model of the CURRENT instance (use(k) switches)
 	o := p.Offset
-	S := map[int64]struct{}{}
+	curInst := 0
+	tb = insts[0].tb
+	S := insts[0].S
 	firstHole := o
 	maxS := int64(-1)
 	prevOffset := tb.Offset
 	reclaimedModel := o
+	use := func(k int) {
+		if k == curInst {
+			return
+		}
+		ci := insts[curInst]
+		ci.firstHole, ci.maxS, ci.prevOffset, ci.reclaimedModel = firstHole, maxS, prevOffset, reclaimedModel
+		curInst = k
+		ni := insts[k]
+		tb, S = ni.tb, ni.S
+		firstHole, maxS, prevOffset, reclaimedModel = ni.firstHole, ni.maxS, ni.prevOffset, ni.reclaimedModel
+	}
 	member := func(j int64) uint64 {
 		if j < o {
 			return 1
@@ -312,7 +351,7 @@ func (Tail) Execute(pl engine.Plan, c *engine.RunCtx) *engine.Failure {
 					st.Inc("fault.fired.net.drop")
 					c.FaultsFired++
 				} else {
-					m := tailMsg{id: id, at: tick, seq: seq}
+					m := tailMsg{inst: pi % nInst, id: id, at: tick, seq: seq}
 					seq++
 					if p.Window > 0 {
 						d := int64((h >> 16) % uint64(p.Window))
@@ -354,10 +393,10 @@ func (Tail) Execute(pl engine.Plan, c *engine.RunCtx) *engine.Failure {
 			if len(held) > 0 {
 				kept := held[:0]
 				for _, m := range held {
-					if tb.Offset > m.id || producersLeft == 0 {
+					if insts[m.inst].tb.Offset > m.id || producersLeft == 0 {
 						m.at = tick
 						heap.Push(&inbox, m)
-						if tb.Offset > m.id {
+						if insts[m.inst].tb.Offset > m.id {
 							st.Inc("fault.fired.net.delay_past_compaction")
 							c.FaultsFired++
 						}
@@ -384,6 +423,7 @@ func (Tail) Execute(pl engine.Plan, c *engine.RunCtx) *engine.Failure {
 				continue
 			}
 			m := heap.Pop(&inbox).(tailMsg)
+			use(m.inst)
 			deliveries++
 			step := deliveries
 			c.Status.SetStep(uint64(step), 1)
@@ -451,7 +491,25 @@ func (Tail) Execute(pl engine.Plan, c *engine.RunCtx) *engine.Failure {
 					return
 				}
 			}
-			st.State(engine.HashU64(0, uint64(tb.Offset-o), uint64(len(tb.Words)), uint64(firstHole-o), uint64(len(S))))
+			if nInst > 1 {
+				// the other instances must be exactly as their own models say
+				for k := 0; k < nInst; k++ {
+					if k == m.inst {
+						continue
+					}
+					use(k)
+					for _, j := range []int64{firstHole - 1, firstHole, maxS, tb.Offset, end() - 1} {
+						if f := probeOne(step, j); f != nil {
+							f.Detail = fmt.Sprintf("instance %d after a Set on instance %d: %s", k, m.inst, f.Detail)
+							fail = f
+							return
+						}
+					}
+				}
+				use(m.inst)
+				st.Inc("probe.C15.several_instances_alive")
+			}
+			st.State(engine.HashU64(0, uint64(m.inst), uint64(tb.Offset-o), uint64(len(tb.Words)), uint64(firstHole-o), uint64(len(S))))
 			if deliveries%8 == 0 || len(inbox) == 0 {
 				t.Yield()
 			}
@@ -470,9 +528,15 @@ func (Tail) Execute(pl engine.Plan, c *engine.RunCtx) *engine.Failure {
 	if lo < 0 {
 		lo = 0
 	}
-	for j := lo; j < end(); j++ {
-		if f := probeOne(deliveries+1, j); f != nil {
-			return f
+	for k := 0; k < nInst; k++ {
+		use(k)
+		for j := lo; j < end(); j++ {
+			if f := probeOne(deliveries+1, j); f != nil {
+				if nInst > 1 {
+					f.Detail = fmt.Sprintf("instance %d: %s", k, f.Detail)
+				}
+				return f
+			}
 		}
 	}
 	if firstHole-o >= 65536 && p.Threshold == 0 {
@@ -506,6 +570,7 @@ func (Tail) Shrink(pl engine.Plan) []engine.Plan {
 		out = append(out, q)
 	}
 	for _, f := range []func(q *TailPlan) bool{
+		func(q *TailPlan) bool { ok := q.Instances > 1; q.Instances = 1; return ok },
 		func(q *TailPlan) bool { ok := q.DupDen != 0; q.DupDen = 0; return ok },
 		func(q *TailPlan) bool { ok := q.DropDen != 0; q.DropDen = 0; return ok },
 		func(q *TailPlan) bool { ok := q.Window != 0; q.Window = 0; return ok },
